@@ -169,6 +169,11 @@ def explore(ctx):
             after = snap.glyphset_snapshot(gset)
             src1 = snap.font_snapshot(font)
         except Exception as e:
+            if fname.startswith("RemoveOverlaps") and type(e).__name__ in ("PathOpsError", "BooleanOperationsError", "UnsupportedContourError"):
+                # the boolean-operations backend gives up on some random self-touching outlines: a limit of that library
+                # (environment), not of the filter protocol this property is about
+                ctx.klass("overlap backend gave up on a random outline (environment)")
+                continue
             ctx.spec_failure(case, "%s raised %s: %s\n%s" % (fname, type(e).__name__, e, traceback.format_exc()[-1200:]))
             continue
         ctx.count()
@@ -211,7 +216,10 @@ def explore(ctx):
                     ctx.spec_failure(case, "%s: a reused filter object behaves differently from a fresh one on the next font "
                                            "(modified %r vs %r)" % (fname, sorted(ma), sorted(mb)))
             except Exception as e:
-                ctx.spec_failure(case, "%s (second invocation) raised %s: %s\n%s" % (fname, type(e).__name__, e, traceback.format_exc()[-1000:]))
+                if fname.startswith("RemoveOverlaps") and type(e).__name__ in ("PathOpsError", "BooleanOperationsError", "UnsupportedContourError"):
+                    ctx.klass("overlap backend gave up on a random outline (environment)")
+                else:
+                    ctx.spec_failure(case, "%s (second invocation) raised %s: %s\n%s" % (fname, type(e).__name__, e, traceback.format_exc()[-1000:]))
         # ---- driver model correspondence on the decompose instance
         if fname == "DecomposeComponents" and inc_kind in ("all", "include", "exclude"):
             cases.append(G.tup(G.lst([G.s(n) for n in names if n in included], "str"), geom.g_glyphset(before_geo),
